@@ -17,7 +17,7 @@ import (
 	"verif/lib/world"
 )
 
-func init() { checks["C01"] = c01; checks["C01:fan"] = c01fan }
+func init() { checks["C01"] = c01; checks["C01:fan"] = c01fan; checks["C05:multi"] = c05multi }
 
 func c01(run *ev.Run) {
 	w := world.New(world.Options{})
@@ -129,3 +129,57 @@ func fanMonitor(s *chainsim.Step, v func(key, what string)) {
 
 // the sender c0 is never among the recipients (ranges start at index 1), so no overlap case exists
 func skipOverlap(*chainsim.Step, int, int) bool { return false }
+
+// c05multi: part "multi" of C05 — one transaction queueing SEVERAL transfers, the same (from, to)
+// pair more than once, with a debit of the receiver in between, and amounts whose sum passes 2^64.
+// Every sequence of 1..3 queued transfers over 4 pairs x 3 amounts, executed by one call of the test
+// contract from genesis; oracle = the C05 balance monitor (the queued transfers replayed in order with
+// unbounded integers: applied although one of them overdraws / overflows is a violation) + supply.
+func c05multi(run *ev.Run) {
+	w := world.New(world.Options{})
+	kvsc.Register()
+	a, c := w.Actors["c1"].ID, w.Actors["c2"].ID
+	b := world.DetKey("multi-empty-account").ID // owns nothing
+	pairs := [][2]string{{a, b}, {b, c}, {a, c}, {b, a}}
+	amts := []uint64{50, 100, 1<<64 - 50}
+	type mv struct {
+		p   int
+		amt uint64
+	}
+	var letters []mv
+	for p := range pairs {
+		for _, x := range amts {
+			letters = append(letters, mv{p, x})
+		}
+	}
+	var acts []chainsim.Action
+	names := []string{"A>B", "B>C", "A>C", "B>A"}
+	var rec func(seq []mv)
+	maxLen := run.Pick(3, 4)
+	rec = func(seq []mv) {
+		if len(seq) > 0 {
+			var ops []kvsc.Op
+			var parts []string
+			for _, m := range seq {
+				ops = append(ops, kvsc.Op{Op: "move", K: pairs[m.p][0] + ">" + pairs[m.p][1], V: fmt.Sprint(m.amt)})
+				parts = append(parts, fmt.Sprintf("%s:%d", names[m.p], m.amt))
+			}
+			data, _ := json.Marshal(ops)
+			acts = append(acts, chainsim.Action{Name: "kv:moves(" + strings.Join(parts, ",") + ")", Build: func(x *chainsim.Ctx) *world.TxnSpec {
+				f := w.Actors["c0"]
+				return &world.TxnSpec{From: f, To: kvsc.Address, Type: transaction.TxnTypeSmartContract, Fee: 3, Nonce: x.Nonce(f) + 1, Data: world.SC("run", json.RawMessage(data))}
+			}})
+		}
+		if len(seq) == maxLen {
+			return
+		}
+		for _, l := range letters {
+			rec(append(append([]mv{}, seq...), l))
+		}
+	}
+	rec(nil)
+	e := &chainsim.Explorer{Run: run, W: w, Actions: acts, Depth: 1, Monitors: []chainsim.Monitor{supplyMonitor, balanceMonitor},
+		Budget: time.Duration(run.Pick(50, 600)) * time.Second}
+	run.Rule = "every sequence of 1..3 (thorough 4) transfers queued by ONE contract call over the pairs {A>B, B>C, A>C, B>A} (A, C funded, B owns nothing) and the amounts {50, 100, 2^64-50}, executed by the real Chain.UpdateState from genesis; oracle: the transaction is applied only if replaying its queued transfers in order never overdraws a source or overflows a destination, and then every balance equals that replay; total supply unchanged"
+	e.Explore()
+}
